@@ -727,6 +727,62 @@ def _cost_code(x):
     return int(x)
 
 
+def _nested_transfer_case(rng, costs):
+    """a directed family: the object tree follows a caterpillar species tree except that the deepest leaf is replaced by a
+    cherry holding a leaf of the farthest species (under the LCA mapping: a stack of duplications that ONE transfer removes);
+    one inner edge of the object tree -- and, half of the time, of the species tree -- is collapsed into a polytomy whose
+    children come in a random order.  The refinements then differ widely in their LCA cost while the optimum uses a transfer."""
+    k = rng.choice([4, 4, 5])
+    sp = [[], []]
+    for _ in range(k - 2):
+        sp = [sp, []]
+    ob = [[("L", k - 1), ("L", 0)], ("L", 1)]
+    for i in range(2, k):
+        ob = [ob, ("L", i)]
+
+    def collapse(t, protect, shuffle=True):
+        inner = []
+
+        def walk(n, parent):
+            if isinstance(n, list) and n:
+                if parent is not None and n is not protect:
+                    inner.append((parent, n))
+                for ch in n:
+                    walk(ch, n)
+        walk(t, None)
+        if inner:
+            parent, n = rng.choice(inner)
+            i = next(j for j, ch in enumerate(parent) if ch is n)
+            parent[i:i + 1] = n
+            if shuffle:
+                rng.shuffle(parent)
+    collapse(ob, ob_nested := _first_cherry(ob))
+    if rng.random() < 0.5:
+        collapse(sp, None, shuffle=False)
+    order = []
+
+    def shape(n):
+        if isinstance(n, tuple):
+            order.append(n[1])
+            return []
+        return [shape(ch) for ch in n]
+    osh = shape(ob)
+    c = _random_input_case(rng, osh, sp, fams="a" if rng.random() < 0.7 else "ab", costs=costs)
+    sleaves = leaves_of(c["species"])
+    # species leaves are named left to right; in the caterpillar the deepest cherry comes first, and collapsing keeps that order
+    c["map"] = {o: sleaves[i] for o, i in zip(leaves_of(c["object"]), order)}
+    if rng.random() < 0.7:
+        c["syn"] = {o: "a" for o in c["syn"]}
+        c.pop("syn_as", None)
+    return c
+
+
+def _first_cherry(t):
+    while isinstance(t[0], list) and t[0] and isinstance(t[0][0], list):
+        t = t[0]
+    return t[0] if isinstance(t[0], list) else t
+
+
 def _solver_cases(rng, quick):
     pool = [sh for n in range(2, 5) for sh in shapes(n)]
     poly = [s for s in pool if any(len(x) > 2 for x in _walk(s))]
@@ -749,6 +805,11 @@ def _solver_cases(rng, quick):
             continue
         budget -= pairs
         cases.append(c)
+    for _ in range(40 if quick else 600):
+        c = _nested_transfer_case(rng, rng.choice([COST_VECTORS[0], COST_VECTORS[0], COST_VECTORS[1], COST_VECTORS[3]]))
+        c["solver"] = rng.choice(["spfs", "uspfs"])
+        if double_fact_count(c["object"]) * double_fact_count(c["species"]) <= 45:
+            cases.append(c)
     return cases
 
 
@@ -761,6 +822,12 @@ def _search_one(seed):
     pool = [sh for n in range(2, 5) for sh in shapes(n)]
     poly = [s_ for s_ in pool if any(len(x) > 2 for x in _walk(s_))]
     for _ in range(50):
+        if rng.random() < 0.3:
+            c = _nested_transfer_case(rng, COST_VECTORS[0])
+            c["solver"] = rng.choice(["spfs", "uspfs"])
+            if double_fact_count(c["object"]) * double_fact_count(c["species"]) <= 45:
+                break
+            continue
         r = rng.random()
         osh, ssh = (rng.choice(poly), rng.choice(pool)) if r < 0.4 else ((rng.choice(pool), rng.choice(poly)) if r < 0.8 else (rng.choice(poly), rng.choice(poly)))
         c = _random_input_case(rng, osh, ssh, fams="abc"[:rng.randint(1, 3)], costs=rng.choice([COST_VECTORS[0], COST_VECTORS[0], rng.choice(COST_VECTORS)]))
